@@ -72,23 +72,14 @@ theorem c13_typed_fault (env : Env) (hf : env.flt = true) (s : Schema) (bs : Byt
   | io => exact .inl rfl
   | fuel => exact absurd h hfuel
 
-/-- **C10 (typed targets), every schema.** If the typed deserializer accepts a text, it accepts every prefix of
-    it or fails at the end of the prefix with an `Eof`-classified error — or with `NumberOutOfRange`, the one
-    exception the proof forces (`_partial`): a prefix that ends in a complete number literal whose value is not a
-    finite float (`1` followed by 400 zeros, although `…e-395` is accepted) is rejected as out of range; inherent to
-    the number-range rule for `f64` / `f32` / `Value` targets (open finding C10-out-of-range-number-prefix); for the
-    other targets it is excluded by `c10_typed_prefix` below. Every configuration and source (clean end of input).
-    In particular no Syntax code of a truncation site survives: `InvalidNumber` (128-bit `-`), `ExpectedNumericKey` /
-    `ExpectedDoubleQuote` (quoted numeric keys cut short), `ExpectedSomeIdent` (bool keys), `TrailingCharacters`. -/
-theorem c10_typed_prefix_partial (env : Env) (hflt : env.flt = false) (s : Schema) (bs : Bytes) (k : Nat) (v : TVal)
+/-- the core of the C10 theorems: `A` = the codes allowed at the end of a prefix -/
+theorem c10_typed_core (A : Code → Prop) (hAe : ∀ c, classify c = .eof → A c) (env : Env) (hflt : env.flt = false) (s : Schema)
+    (hAn : Schema.rangeSite s = true → A .NumberOutOfRange) (bs : Bytes) (k : Nat) (v : TVal)
     (h : deTypedTop env s bs = .ok v) :
     (∃ v', deTypedTop env s (bs.take k) = .ok v') ∨
-    (∃ c, deTypedTop env s (bs.take k) = .err c (bs.take k).length ∧ (classify c = .eof ∨ c = .NumberOutOfRange)) := by
-  let A : Code → Prop := fun c => classify c = .eof ∨ c = .NumberOutOfRange
-  have hAe : ∀ c, classify c = .eof → A c := fun c h => .inl h
-  have hAn : A .NumberOutOfRange := .inr rfl
-  have hpre := (pre_deTyped (A := A) (b := bs.drop k) (N := (bs.take k).length) hflt hAe hAn (intPre hflt hAe hAn)
-    (Schema.size s + 1) s (by omega) 0).1 (bs.take k) 0 (by omega)
+    (∃ c, deTypedTop env s (bs.take k) = .err c (bs.take k).length ∧ A c) := by
+  have hpre := (pre_deTyped (A := A) (b := bs.drop k) (N := (bs.take k).length) hflt hAe (intPre hflt hAe)
+    (Schema.size s + 1) s (by omega) hAn 0).1 (bs.take k) 0 (by omega)
   rw [List.take_append_drop] at hpre
   unfold deTypedTop at h ⊢
   cases hfull : deTyped env (Schema.size s + 1) 0 s bs 0 with
@@ -108,6 +99,32 @@ theorem c10_typed_prefix_partial (env : Env) (hflt : env.flt = false) (s : Schem
     | eof hc => exact .inr ⟨_, rfl, hc⟩
     | fail hf => exact absurd rfl (hf _ _ _)
   | _ => rw [hfull] at h; simp at h
+
+/-- **C10 (typed targets).** For every schema without a target that converts number literals to floats while parsing
+    (no `f64`, `f32`, `Value` anywhere in it — `Schema.rangeSite s = false`): if the typed deserializer accepts a text,
+    it accepts every prefix of it or fails at the end of the prefix with an `Eof`-classified error. This covers bool,
+    the twelve integer targets incl. the 128-bit ones (`scan_integer128`), char / String / bytes, unit, Option, newtype,
+    Vec, tuples, maps with every key kind (quoted numeric keys, bool keys `"true"`, char and unit-enum keys), structs from
+    arrays and from maps (unknown fields skipped by `ignore_value`), externally tagged enums, IgnoredAny; every
+    configuration and source. In particular no Syntax code of a truncation site survives: `InvalidNumber` (128-bit `-`),
+    `ExpectedNumericKey` / `ExpectedDoubleQuote` (quoted numeric keys cut short), `ExpectedSomeIdent` (bool keys),
+    `TrailingCharacters` — the defects repaired by 50d9fce / afff6b0 cannot come back unnoticed. -/
+theorem c10_typed_prefix (env : Env) (hflt : env.flt = false) (s : Schema) (hs : Schema.rangeSite s = false) (bs : Bytes) (k : Nat)
+    (v : TVal) (h : deTypedTop env s bs = .ok v) :
+    (∃ v', deTypedTop env s (bs.take k) = .ok v') ∨
+    (∃ c, deTypedTop env s (bs.take k) = .err c (bs.take k).length ∧ classify c = .eof) :=
+  c10_typed_core (fun c => classify c = .eof) (fun _ h => h) env hflt s (fun h' => by rw [hs] at h'; cases h') bs k v h
+
+/-- **C10 (typed targets), every schema** — with the one exception the proof forces (`_partial`): a prefix that ends in
+    a complete number literal whose value is not a finite float (`1` followed by 400 zeros, although `…e-395` is
+    accepted) fails with `NumberOutOfRange` (Syntax) at its end. The exception is inherent to the number-range rule of
+    the `f64` / `f32` / `Value` targets (open finding C10-out-of-range-number-prefix) and arises only there
+    (`c10_typed_prefix`). -/
+theorem c10_typed_prefix_partial (env : Env) (hflt : env.flt = false) (s : Schema) (bs : Bytes) (k : Nat) (v : TVal)
+    (h : deTypedTop env s bs = .ok v) :
+    (∃ v', deTypedTop env s (bs.take k) = .ok v') ∨
+    (∃ c, deTypedTop env s (bs.take k) = .err c (bs.take k).length ∧ (classify c = .eof ∨ c = .NumberOutOfRange)) :=
+  c10_typed_core (fun c => classify c = .eof ∨ c = .NumberOutOfRange) (fun _ h => .inl h) env hflt s (fun _ => .inr rfl) bs k v h
 
 /-- Bool-valued tests on outcomes (for kernel-evaluated examples) -/
 def Top.isOk (o : Top) (v : TVal) : Bool := match o with | .ok v' => v' == v | _ => false
